@@ -46,6 +46,8 @@ class C16Spec(seqx.Spec):
                 out.append({"t": "W", "key": "k1", "val": "B-" + a, "side": side, "how": "oneshot"})
                 out.append({"t": "WH", "val": "B-" + a, "side": side})
             out.append({"t": "D", "val": "B-" + a})
+            for side in ("s", "a"):
+                out.append({"t": "OVF", "val": "B-" + a, "side": side})
         return out
 
     def apply(self, ctx, res, srv, cache, action, model, replay):
@@ -64,6 +66,29 @@ class C16Spec(seqx.Spec):
                 if "ok" not in rep:
                     return rep
             model.write(None, want, data, size=v["n"], time=0)
+            return rep
+        if t == "OVF":
+            # the stored bytes are sent again through a writer whose declared size is exactly filled by the first
+            # chunk and then exceeded: the commit is refused, the stored copy must stay byte-identical
+            v = self.values[action["val"]]
+            n, tag = v["n"], v["tag"]
+            m = n // 2
+            rep, trace = wr.do_write(srv, cache, side=action["side"], entry="open", key="k2", algo=v["algo"], n=n, tag=tag, chunks=[m, n - m], opts={"size": m})
+            res["transitions"] += len(trace)
+            if rep.get("err", {}).get("variant") != "SizeMismatch":
+                r = dict(replay)
+                r["reply"] = rep
+                V.violation(res, "dedup:overflowing-writer/%s:%s" % (action["side"], classify(rep)), "writer with declared size %d given %d bytes: %r" % (m, n, rep), r)
+            sri_ = ctx.sri(v["algo"], ref.gen(n, tag))
+            try:
+                with open(os.path.join(cache, ref.content_rel(sri_)), "rb") as fh:
+                    on_disk = fh.read()
+            except OSError:
+                on_disk = None
+            if on_disk == ref.gen(n, tag):
+                # the refused data may stay retrievable by address; publishing it replaces a damaged copy by a good one
+                model.content[sri_] = on_disk
+                model.damaged.discard(sri_)
             return rep
         if t == "D":
             v = self.values[action["val"]]
@@ -110,6 +135,8 @@ def label_patch():
             return "WH(%s,%s)" % (action["val"], action["side"])
         if action["t"] == "D":
             return "DAMAGE(%s)" % action["val"]
+        if action["t"] == "OVF":
+            return "OVERFLOWING-WRITER(%s,%s)" % (action["val"], action["side"])
         return old(action)
     seqx.label = lab
 
